@@ -73,6 +73,7 @@ def run(ctx):
                 n = rng.choice([1, eps, eps + 1, 2 * eps + 1])
                 plans2.append([[rng.randrange(3), list(range(nxt, nxt + n))]]); nxt += n
             c.update({"plans2": plans2, "delays2": [rng.choice([0, 0.002]) for _ in range(k2)], "reopen": rng.random() < 0.5})
+        c["other_first"] = i % 3 == 0
         cases.append(c)
     # more writers than CPU cores (every writer must still run, in its own process slot or queued)
     import os
@@ -99,6 +100,17 @@ def run(ctx):
         all_returns = resp["returns"] + (resp.get("returns2") or [])
         # recount oracle on the parallel result + check()
         problems, per_split = T.recount(rootp)
+        # "equivalent to running the same writers one after another": no list documents but those of writers that closed a shard
+        # there (a writer that writes nothing into a split leaves no directory; nothing else may add one)
+        for pth in sorted(rootp.rglob("shards_list.json")):
+            doc = json.loads(pth.read_text())
+            if not doc.get("shard_files") and not doc.get("children_shard_lists"):
+                problems.append(f"{pth.relative_to(rootp)} is an empty shard list (no sequential run of these writers creates one)")
+        for extra in ("_other",):
+            q = Path(str(rootp) + extra)
+            if q.exists(): shutil.rmtree(q, ignore_errors=True)
+            q = Path(str(roots) + extra)
+            if q.exists(): shutil.rmtree(q, ignore_errors=True)
         try:
             Dataset(rootp).check(show_progressbar=False); chk = None
         except Exception as e:  # noqa: BLE001
@@ -125,7 +137,8 @@ def run(ctx):
                     ctx.report(dict(sig, kind="shared-file"), f"worker processes {pa} and {pb} both wrote {sorted(wsets[pa] & wsets[pb])[:3]}", {"case": c})
         by_pid_first = {str(r[0]): idx for idx, r in reversed(list(enumerate(all_returns)))}
         for pid, w in wsets.items():
-            own = {f"w{j + 1:08d}" + "0" * 23 for j, r in enumerate(all_returns) if str(r[0]) == pid}
+            off = 2 if c.get("other_first") else 0          # (the earlier dataset of the same process used up two writer names)
+            own = {f"w{j + 1 + off:08d}" + "0" * 23 for j, r in enumerate(all_returns) if str(r[0]) == pid}
             for path in w:
                 parts = Path(path).parts
                 if len(parts) < 2 or parts[1] not in own:
